@@ -178,6 +178,28 @@ ASSUME \A n \in { <<1, 0, 100>>, <<0, 0, 300>>, <<0, 65535, 65535>>, <<2, 0, 0>>
 ASSUME T48Add(<<0, 65535, 65535>>, 1) = <<1, 0, 0>> /\ T48Add(<<1, 0, 0>>, -1) = <<0, 65535, 65535>>
 ASSUME ~InWindow(<<1, 0, 0>>, <<0, 0, 0>>, 65535) /\ InWindow(<<0, 1, 0>>, <<0, 0, 1>>, 65535)
 
+\* client connections: the answer chained on the request as written is accepted on the first and on any later read of
+\* the transaction (reads do not move the state); the request reflected back, an answer to the previous request of the
+\* connection and an answer chained on nothing are not; the next signed request starts a new transaction
+ConnQ(i, prev) == SignEnv(Session(prev), Body(i), Vars({}, i), S1)
+ConnA(i, q)    == SignEnv(Session(q.mac), Body(i), Vars({}, i), S1).env
+ASSUME LET q1 == ConnQ(2, <<>>)
+           c1 == ConnWrite(ConnOpen, q1.env)
+           q2 == ConnQ(4, q1.mac)             \* what the library writes for a second request; any MAC will do here
+           c2 == ConnWrite(c1, q2.env)
+       IN /\ c1 = Session(q1.mac) /\ c2 = Session(q2.mac) /\ c1 # c2
+          /\ ConnWrite(c1, Body(3)) = c1
+          /\ ConnAccept(c1, ConnA(1, q1), Now, SecretOf)
+          /\ ConnReadDigest(c1, ConnA(1, q1)).st = "ok"
+          /\ ConnReadDigest(c1, Body(3)).st = "nosig"
+          /\ ~ConnAccept(c1, q1.env, Now, SecretOf)
+          /\ ~ConnAccept(c1, Body(1), Now, SecretOf)
+          /\ ~ConnAccept(ConnOpen, ConnA(1, q1), Now, SecretOf)
+          /\ ~ConnAccept(c2, ConnA(1, q1), Now, SecretOf)
+          /\ ConnAccept(c2, ConnA(3, q2), Now, SecretOf)
+          /\ ConnRequestDigest(q1.env).digest = DigestInput(<<>>, Body(2), MsgId(Body(2)), Vars({}, 2), FALSE)
+          /\ ConnRequestDigest(q2.env).digest # DigestInput(q1.mac, Body(4), MsgId(Body(4)), Vars({}, 4), FALSE)
+
 \* export: one line per (L, F) -- the terminal state is unique for a configuration
 KindOrder == <<"wrongkey", "unknownkey", "wrongmac", "stale", "unsign", "alter_id", "alter_flags", "alter_keycase",
                "alter_class", "alter_ttl", "alter_time", "alter_mac", "alter_origid", "drop", "dup", "swap">>
